@@ -580,32 +580,49 @@ def _r19_4(run: Run, res: Resolver) -> None:
     run.instance("R19.4", f"{mod.relpath}", f"SCHEMA_NAME_PATTERN {pat.pattern!r}: alphabet {''.join(sorted(chars))!r}, anchored={a0 and a1}", ok=ok)
     if not ok:
         run.violation("R19.4", mod, None, "SCHEMA_NAME_PATTERN", f"the schema-name pattern admits path characters {bad} / non-ASCII={non_ascii} or is not anchored at both ends (start={a0}, end={a1})", pattern=pat.pattern)
-    fi = mod.func("load_schema_by_name")
-    fa = FuncAnalysis(fi, res)
-    cfg = fa.cfg
-    pname = param_names(fi.node)[0]
-    tainted = taint_closure(fi.node, [pname])
-    # the guard: `if not PATTERN.match(name): return None`
-    guard_ok_nodes = []
-    for node in cfg.nodes:
-        if node.kind == "test" and node.ast is not None:
-            t = node.ast
-            if isinstance(t, ast.UnaryOp) and isinstance(t.op, ast.Not) and isinstance(t.operand, ast.Call) and isinstance(t.operand.func, ast.Attribute) and t.operand.func.attr in ("match", "fullmatch") and is_name(t.operand.func.value, "SCHEMA_NAME_PATTERN") and t.operand.args and is_name(t.operand.args[0], pname):
-                guard_ok_nodes.append(node)
-    if not guard_ok_nodes:
-        run.violation("R19.4", mod, fi.qualname, "SCHEMA_NAME_PATTERN.match(schema_name) guard", "load_schema_by_name does not test the name against SCHEMA_NAME_PATTERN before use")
+    # every function of the loader that builds a path from its first parameter (a schema name) is held to the same rule; those
+    # that satisfy it hand out vetted paths
+    vetting: set[str] = set()
     joins = 0
-    for n in walk_no_nested(fi.node):
-        is_join = (isinstance(n, ast.BinOp) and isinstance(n.op, ast.Div)) or (isinstance(n, ast.Call) and ast.unparse(n.func) in ("os.path.join", "Path")) or (isinstance(n, ast.Call) and isinstance(n.func, ast.Attribute) and n.func.attr == "joinpath")
-        if is_join and names_in(n) & tainted:
+    cands = [mod.func("load_schema_by_name")] + [f for f in mod.functions.values() if f.qualname != "load_schema_by_name" and f.parent_func is None and param_names(f.node) and "name" in param_names(f.node)[0]]
+    for fi in cands:
+        fa = FuncAnalysis(fi, res)
+        cfg = fa.cfg
+        pname = param_names(fi.node)[0]
+        tainted = taint_closure(fi.node, [pname])
+        # the guard: `if not PATTERN.match(name): return None`
+        guard_ok_nodes = []
+        for node in cfg.nodes:
+            if node.kind == "test" and node.ast is not None:
+                t = node.ast
+                if isinstance(t, ast.UnaryOp) and isinstance(t.op, ast.Not) and isinstance(t.operand, ast.Call) and isinstance(t.operand.func, ast.Attribute) and t.operand.func.attr in ("match", "fullmatch") and is_name(t.operand.func.value, "SCHEMA_NAME_PATTERN") and t.operand.args and is_name(t.operand.args[0], pname):
+                    guard_ok_nodes.append(node)
+        fjoins = []
+        for n in ast.walk(fi.node):
+            is_join = (isinstance(n, ast.BinOp) and isinstance(n.op, ast.Div)) or (isinstance(n, ast.Call) and ast.unparse(n.func) in ("os.path.join", "Path")) or (isinstance(n, ast.Call) and isinstance(n.func, ast.Attribute) and n.func.attr == "joinpath")
+            if is_join and names_in(n) & tainted:
+                fjoins.append(n)
+        if not fjoins:
+            if fi.qualname == "load_schema_by_name":
+                # the lookup may have been extracted: then the function must hand the name to a vetting builder only after its
+                # own guard, or the builder guards itself (checked when its turn comes)
+                pass
+            continue
+        if not guard_ok_nodes:
+            run.violation("R19.4", mod, fi.qualname, "SCHEMA_NAME_PATTERN.match(schema_name) guard", f"{fi.qualname} does not test the name against SCHEMA_NAME_PATTERN before building a path from it")
+        all_ok = bool(guard_ok_nodes)
+        for n in fjoins:
             joins += 1
             nodes = cfg.node_for_stmt_containing(n)
             ok = bool(guard_ok_nodes) and bool(nodes) and all(any(t is g.ast and val is False for t, val in branch_conditions(cfg, x) for g in guard_ok_nodes) for x in nodes)
-            run.instance("R19.4", mod.loc(n), f"load_schema_by_name: path join `{norm(n)}` uses the schema name after the pattern test", ok=ok)
+            all_ok = all_ok and ok
+            run.instance("R19.4", mod.loc(n), f"{fi.qualname}: path join `{norm(n)}` uses the schema name after the pattern test", ok=ok)
             if not ok:
                 run.violation("R19.4", mod, fi.qualname, n, "a path is built from the schema name without the name pattern having been matched first")
+        if all_ok:
+            vetting.add(fi.name)
     if joins == 0:
-        raise AnalysisError("load_schema_by_name: no path join using the schema name found")
+        raise AnalysisError("schemas.loader: no path join using a schema name found")
     # who may call load_schema (takes an arbitrary path)
     allowed = {"octave_mcp.schemas.loader:load_schema_by_name", "octave_mcp.schemas.loader:load_builtin_schemas"}
     ncall = 0
@@ -620,8 +637,8 @@ def _r19_4(run: Run, res: Resolver) -> None:
                         if not ok and n.args and isinstance(n.args[0], ast.Name):
                             # path must come from resolve_hermetic_standard(...) in the same function
                             srcs = [v for st, v in FuncAnalysis(f2, res).assignments_to(n.args[0].id) if v is not None]
-                            ok = bool(srcs) and all(isinstance(v, ast.Call) and ast.unparse(v.func).endswith("resolve_hermetic_standard") for v in srcs)
-                            why = "path is the result of resolve_hermetic_standard"
+                            ok = bool(srcs) and all(isinstance(v, ast.Call) and (ast.unparse(v.func).endswith("resolve_hermetic_standard") or ast.unparse(v.func).split(".")[-1] in vetting) for v in srcs)
+                            why = "path is the result of resolve_hermetic_standard / of a loader function that matches the name pattern before it builds a path"
                         if not ok and n.args and isinstance(n.args[0], ast.Call) and ast.unparse(n.args[0].func).endswith("resolve_hermetic_standard"):
                             ok, why = True, "path is the result of resolve_hermetic_standard (called in place)"
                         run.instance("R19.4", f2.module.loc(n), f"{f2.qualname}: load_schema({norm(n.args[0]) if n.args else ''}) - {why}", ok=ok)
